@@ -303,7 +303,7 @@ func init() {
 	}
 	externDoc["sort.Search"] = "sort.Search(n, f): r in [0, n] with (r < n => f(r)) and (r > 0 => !f(r-1)); f is evaluated symbolically at those two points"
 
-	ext("slices.SortFunc", "slices.SortFunc(s, cmp): s becomes a permutation of its elements (ordered by cmp; the order is stated where a contract needs it)",
+	ext("slices.SortFunc", "slices.SortFunc(s, cmp): s becomes a permutation of its elements; for cmp of the form cmp.Compare(a.key, b.key) the result is ascending in key",
 		func(x *Exec, st *State, fr *Frame, cc *ssa.CallCommon, args []Val, instr ssa.Instruction) []Outcome {
 			t := cc.Args[0].Type()
 			sort, old := x.seqOf(st, args[0], t)
@@ -315,13 +315,38 @@ func init() {
 			pi := app("g_permidx_"+sort, old, nw, q)
 			st.assume(fmt.Sprintf("(forall ((%s Int)) (! (=> (and (<= 0 %s) (< %s %s)) (and (<= 0 %s) (< %s %s) (= %s %s))) :pattern (%s)))",
 				q, q, q, sLen(sort, nw), pi, pi, sLen(sort, old), sIdx(sort, nw, q), sIdx(sort, old, pi), sIdx(sort, nw, q)))
+			// ordering: for a comparator of the form cmp.Compare(a.key, b.key) on struct pointers the
+			// result is ascending in that key (read from the heap as it is at the call)
+			if clo, ok := args[1].(ClosureV); ok {
+				if path, ok := cmpKeyPath(clo.Fn); ok {
+					if sl, ok := t.Underlying().(*types.Slice); ok {
+						if pt, ok := sl.Elem().Underlying().(*types.Pointer); ok && isStructLike(pt.Elem()) {
+							esort := x.w.SortOf(pt.Elem())
+							H := st.heap(esort)
+							x.freshN++
+							qi, qj := fmt.Sprintf("q_i_%d", x.freshN), fmt.Sprintf("q_j_%d", x.freshN)
+							ki, _, ok1 := x.fieldTerm(pt.Elem(), app("select", H, sIdx(sort, nw, qi)), path)
+							kj, _, ok2 := x.fieldTerm(pt.Elem(), app("select", H, sIdx(sort, nw, qj)), path)
+							if ok1 && ok2 {
+								st.assume(fmt.Sprintf("(forall ((%s Int) (%s Int)) (! (=> (and (<= 0 %s) (< %s %s) (< %s %s)) (<= %s %s)) :pattern (%s %s)))",
+									qi, qj, qi, qi, qj, qj, sLen(sort, nw), ki, kj, sIdx(sort, nw, qi), sIdx(sort, nw, qj)))
+								x.note("slices.SortFunc: ascending order by the comparator key assumed")
+							}
+						}
+					}
+				}
+			}
 			// in-place: every later use of the slice variable sees the permuted elements
 			fr.vals[cc.Args[0]] = TV{sort, nw}
 			st.ghost["sortedfrom:"+nw] = TV{sort, old}
+			if sort == SSeqI {
+				st.ghost["lastsorted"] = TV{sort, nw}
+				st.ghost["sortinput"] = TV{sort, old}
+			}
 			return one(st, nil)
 		})
 
-	ext("debug/pe.NewFile", "pe.NewFile(r): an error, or a non-nil *pe.File whose Sections are non-nil and whose OptionalHeader is nil, *OptionalHeader32 or *OptionalHeader64; never panics and allocates proportionally to the input (assumed)",
+	ext("debug/pe.NewFile", "pe.NewFile(r): an error, or a non-nil *pe.File whose Sections are non-nil and whose OptionalHeader is nil, *OptionalHeader32 or *OptionalHeader64; SizeOfHeaders, DataDirectory[4] and each section's Offset/Size are functions of the image bytes (peSoh, peCertVA, peCertSize, secoff, secsize), a section with Offset != 0 reads the image bytes [Offset, Offset+Size) clamped to the image; never panics and allocates proportionally to the input (assumed)",
 		func(x *Exec, st *State, fr *Frame, cc *ssa.CallCommon, args []Val, instr ssa.Instruction) []Outcome {
 			bad := st.fork()
 			res := cc.Signature().Results()
@@ -353,6 +378,9 @@ func init() {
 						tEq(app("g_dyn", oh), num(x.typeTag(types.NewPointer(t64))))))
 					st.assume(tAnd(tCmp("<=", "0", oh), tCmp("<", oh, st.top)))
 				}
+			}
+			if F, _, ok := x.raView(st, args[0]); ok {
+				x.peTies(st, fileT, f.Ref, F)
 			}
 			return []Outcome{{bad, TupleV{PtrV{Nil: true, Elem: fileT}, x.freshErr(bad, "peerr")}}, {st, TupleV{f, nilErr()}}}
 		})
